@@ -81,6 +81,7 @@ fn case_strategy(ctx: &Ctx) -> BoxedStrategy<Case> {
     let excl_big_u64 = ctx.open("data.u64_above_i64_max");
     let excl_bool = ctx.open("where.bool_col");
     let excl_numstr = ctx.open("where.numeric_looking_string_literal");
+    let excl_opt = ctx.open("where.optional_field");
     (
         cfg_strategy(3),
         prop::collection::vec(typedef_strategy("ev", 1, 4), 1..=2),
@@ -145,6 +146,9 @@ fn case_strategy(ctx: &Ctx) -> BoxedStrategy<Case> {
                         return false;
                     }
                     if excl_bool && w.any_lit(&|f, _| fty(f) == Some(FT::Bool)) {
+                        return false;
+                    }
+                    if excl_opt && w.any_lit(&|f, _| td.field(f).map(|x| x.opt).unwrap_or(false)) {
                         return false;
                     }
                     if excl_numstr
